@@ -14,17 +14,18 @@
      track and never more than 1 ms off, whatever the clock rate.
 
    Parts: (1) timestamps c07_ts_*; (2) interleave queue c07_queue_*;
-   (3) remuxer c07_av2rtmp_*; (4) reordering c07_reorder (C12 instantiated) and
-   the RTSP video composition c07_rtsp_video_partial; (5) GB28181
+   (3) remuxer c07_av2rtmp_*; (4) reordering c07_reorder (C12 instantiated), the
+   simulation between the C13 in-session model and the C12 container, the RTSP end-to-end
+   theorems c07_rtsp_video (one track) and c07_rtsp_two_tracks (queue); (5) GB28181
    c07_ps_frame_nals, c07_ps_frames; (6) customize c07_customize.  What is NOT linked by a
    theorem is said at each _partial. *)
 From Lal Require Import Common.LBytes Common.Res
   Codec.CodecNalFraming Codec.CodecNalFramingProofs Codec.CodecAvcSeqHeader Codec.CodecHevcSeqHeader Codec.CodecAac
   Remux.RemuxAv2Rtmp Remux.RemuxAvQueue Remux.RemuxAv2RtmpProofs Remux.RemuxAvQueueProofs Remux.RemuxTsProofs
-  Remux.RemuxRtspIngestProofs.
-From Lal Require Net.NetPs Remux.RemuxPsIngestProofs Remux.RemuxPsPesProofs Remux.RemuxPsIngest.
+  Remux.RemuxRtspIngestProofs Remux.RemuxRtspIngest Remux.RemuxUnpackSimProofs Remux.RemuxRtspSessProofs Remux.RemuxRtspTwoTrackProofs.
+From Lal Require Net.NetPs Remux.RemuxPsIngestProofs Remux.RemuxPsPesProofs Remux.RemuxPsStreamProofs Remux.RemuxPsIngest.
 From Lal Require Rtp.RtpPacker Rtp.RtpUnpacker Rtp.RtpReorder Rtp.RtpFrames Rtp.RtpReorderAbs Rtp.RtpStreamProofs
-  Rtp.RtpRoundtripProofs Net.NetUnpack Codec.CodecAvcSeqHeaderProofs.
+  Rtp.RtpRoundtripProofs Net.NetUnpack Codec.CodecAvcSeqHeaderProofs Codec.CodecHevcSeqHeaderProofs.
 Open Scope N_scope.
 
 (* ======================================================================== *)
@@ -52,6 +53,18 @@ Theorem c07_ts_no_drift_rebased : forall rate t0 t, 0 < rate -> t0 <= t ->
   (t - t0) * 1000 < (rtp_ms rate t - rtp_ms rate t0 + 1) * rate.
 Proof. exact rtp_ms_delta. Qed.
 Print Assumptions c07_ts_no_drift_rebased.
+
+(* RTP packets that aggregate several AAC access units: the i-th one is stamped
+   rtp_ms ts0 + floor(i*1024000/rate) (Rtp/RtpUnpacker.v aac_multi) - within one
+   millisecond of the floor of the sample clock, for every i: the rounding does not
+   accumulate over the units of a packet (seed C07-1 hoisted floor(1024000/rate) out
+   of the loop: 2 ms off at the 7th unit at 48 kHz; the oracle now checks every audio
+   message against floor(1000*samples/rate)) *)
+Theorem c07_ts_multi_au : forall rate ts0 i, 0 < rate ->
+  let ms := rtp_ms rate ts0 + i * 1024000 / rate in
+  ms * rate <= (ts0 + 1024 * i) * 1000 /\ (ts0 + 1024 * i) * 1000 < (ms + 2) * rate.
+Proof. exact multi_au_stamp. Qed.
+Print Assumptions c07_ts_multi_au.
 
 (* the pinned tree divided by uint32(clockRate/1000) = 44 at 44.1 kHz: the error
    grows by 100 ms every 44 s, without bound (DESIGN F-24); witness inside the
@@ -135,6 +148,16 @@ Proof.
 Qed.
 Print Assumptions c07_av2rtmp_seq_header_avc.
 
+(* the same for HEVC: VPS, SPS and PPS come back from lal's parser (c19_seqheader_hevc) *)
+Theorem c07_av2rtmp_seq_header_hevc : forall ts cands m, seq_hdr_msg true ts cands m ->
+  exists h vps sps pps, m = RAv false (ts32 ts) h /\ In vps cands /\ In sps cands /\ In pps cands /\
+    (lenN vps < 65536 -> lenN sps < 65536 -> lenN pps < 65536 -> hevc_parse_seq_header h = Ok (vps, sps, pps)).
+Proof.
+  intros ts cands m (h & vps & sps & pps & E & I1 & I2 & I3 & B). exists h, vps, sps, pps.
+  repeat split; auto. intros L0 L1 L2. apply (CodecHevcSeqHeaderProofs.hevc_seq_header_roundtrip vps sps pps h L0 L1 L2 B).
+Qed.
+Print Assumptions c07_av2rtmp_seq_header_hevc.
+
 (* a whole video track through one remuxer: reading the NAL units out of all
    its messages gives the concatenation of the kept units of all packets - same
    units, same order, each exactly once, nothing else *)
@@ -186,6 +209,21 @@ Theorem c07_av2rtmp_adts_small_pinned_refuted :
 Proof. exact adts_small_pinned_refuted. Qed.
 Print Assumptions c07_av2rtmp_adts_small_pinned_refuted.
 
+(* KNOWN FINDING C07-KF-MULTI-PPS (open): the remuxer keeps ONE sps and ONE pps and clears them when a
+   header has been emitted.  An access unit SPS, PPS(id 0), PPS(id 1), IDR: the sequence header carries the
+   first PPS only; the second one stays buffered and reaches no consumer (a later slice that refers to it
+   cannot be decoded).  The theorems above are about what is delivered; they do not promise that every
+   parameter set of the publisher is in some sequence header - this witness shows it is false. *)
+Definition ex_pps2 : bytes := [104; 238; 60; 128].
+Theorem c07_av2rtmp_second_pps_refuted :
+  let sps := [103; 66; 0; 30; 171; 64; 80; 30; 200] in let pps := [104; 206; 56; 128] in let idr := [101; 136; 128; 16] in
+  exists st' h,
+    feed_av_packet true (set_meta rs_new) (mk_av pt_avc 0 (join_nalu_avcc [sps; pps; ex_pps2; idr]))
+      = Ok (st', [RAv false 0 h; RAv false 0 (23 :: 1 :: 0 :: 0 :: 0 :: join_nalu_avcc [idr])]) /\
+    avc_parse_seq_header h = Ok (sps, pps) /\ rs_pps st' = ex_pps2.
+Proof. eexists _, _. vm_compute. split; [reflexivity|]. split; reflexivity. Qed.
+Print Assumptions c07_av2rtmp_second_pps_refuted.
+
 (* ======================================================================== *)
 (* (4) reordering: arrival perturbations inside the window do not change the
    result.  c12_reorder_video instantiated and composed with the remuxer: the
@@ -195,12 +233,11 @@ Print Assumptions c07_av2rtmp_adts_small_pinned_refuted.
    the window w / 2^14) give the AvPackets of the in-order run, with
    timestamps rtp_ms, and the remuxer turns them into messages whose NAL units
    read back as the publisher's, AUD / parameter sets removed.
-   PARTIAL: the container here is the C12 model; the RTSP in-session around it
-   (RTP header parsing, payload-type dispatch, two tracks + interleave queue) is
-   the C13 model Net/NetInSess.v, related to the same Go code by the
-   correspondence runs c07.rtsp / c07.e2e_rtsp, not by a lemma; the Group
-   fan-out behind the remuxer is C01, chunk / tag serialisation C08 / C11. *)
-Theorem c07_rtsp_video_partial : forall c maxp rate w d (nals : list (N * bytes)) sched st st' msgs,
+   This theorem is about the C12 container; c07_rtsp_video below is the same
+   statement over the RTSP in-session model the harness exercises (C13,
+   Net/NetInSess.v), obtained through the simulation c07_insess_container_sim.
+   Behind the remuxer: Group fan-out = C01, chunk / tag serialisation = C08 / C11. *)
+Theorem c07_rtsp_video_container : forall c maxp rate w d (nals : list (N * bytes)) sched st st' msgs,
   RtpPacker.fu_hdr_size c < maxp -> RtpFrames.rate_ok rate -> d < 65536 ->
   Forall (fun tn => RtpRoundtripProofs.nal_ok c (snd tn)) nals ->
   Forall (fun tn => lenN (snd tn) < 4294967296) nals ->
@@ -216,7 +253,7 @@ Theorem c07_rtsp_video_partial : forall c maxp rate w d (nals : list (N * bytes)
     (feed_all_av true st (map (av_of_out (pt_of_codec c)) outs) = Ok (st', msgs) ->
      read_video_nals (av_msgs msgs) = filter (keep_nal (hevc_of_codec c)) (map snd nals)).
 Proof. exact rtsp_video_track. Qed.
-Print Assumptions c07_rtsp_video_partial.
+Print Assumptions c07_rtsp_video_container.
 
 (* two admissible arrival orders of the same packets: the same AvPackets, hence the same RTMP messages *)
 Theorem c07_reorder : forall c maxp rate w d (nals : list (N * bytes)) sched1 sched2,
@@ -231,6 +268,133 @@ Theorem c07_reorder : forall c maxp rate w d (nals : list (N * bytes)) sched1 sc
   run sched1 = run sched2.
 Proof. exact reorder_same. Qed.
 Print Assumptions c07_reorder.
+
+(* ---- the same over the in-session model (C13) ----
+   One call of RtpUnpackContainer.Feed in the C13 model (raw packet, parsed header,
+   checked accessors) against the C12 model (seq, ts, body): for related states
+   (same queue packet for packet, Size, doneSeq) and a packet without RTP padding,
+   whenever the C13 call returns, the C12 call returns the related state and the
+   same AvPackets - for AVC, HEVC (single, STAP-A / AP, FU), AAC (one, several,
+   fragmented access units) and raw payloads, any clock rate 1 .. 2^63-1 *)
+Theorem c07_insess_container_sim : forall u, clock_pos (NetUnpack.uk_clock u) ->
+  forall w c13 c12 h raw body, crel c13 c12 ->
+  NetRtpHeader.rtp_body raw h = Ok (body, []) -> bytes_ok body -> lenN body < 65536 ->
+  match NetUnpack.cont_feed true u w c13 h raw with
+  | Ok (c', av) =>
+      exists st' outs,
+        RtpReorder.feed (pr_of (NetUnpack.uk_kind u)) (Z.to_N (NetUnpack.uk_clock u)) w c12
+                        (NetRtpHeader.rh_seq h) (NetRtpHeader.rh_ts h) body = Ok (st', outs) /\
+        crel c' st' /\ av = map (to_av (NetUnpack.uk_pt u)) outs
+  | _ => True
+  end.
+Proof. exact feed_sim. Qed.
+Print Assumptions c07_insess_container_sim.
+
+(* a video-only publisher: what rtsp_ingest (SDP -> session as created -> every
+   interleaved packet through handleRtpPacket -> unpack container -> remuxer)
+   hands to the group is the remuxer's output on what the C12 container returns
+   for the same arrivals.  Packets are written by a reference RTP writer
+   (12-byte header, payload of 1 .. 65535 byte values) *)
+Theorem c07_rtsp_video_ingest : forall fx flt rot (hevc : bool) vclock vpt ssrc arrivals groups,
+  (1000 <= vclock < 4294967296000)%Z -> 0 < vpt < 128 -> ssrc < 4294967296 -> Forall arr_ok arrivals ->
+  rtsp_ingest fx flt rot NetInSess.c_none 0 0 None (vcodec_tok hevc) vclock (Z.of_N vpt) None None None
+              (map (fun a => (2, raw_of vpt ssrc a)) arrivals) = Ok groups ->
+  exists st12 outs r',
+    RtpReorder.feed_all (pr_of (vkind hevc)) (Z.to_N vclock) 1024 RtpReorder.c_init arrivals = Ok (st12, outs) /\
+    feed_all_av fx rs_new (map (to_av (vpt_of hevc)) outs) = Ok (r', concat groups).
+Proof. exact rtsp_video_ingest. Qed.
+Print Assumptions c07_rtsp_video_ingest.
+
+(* END TO END for one video track, over the in-session model: the publisher's NAL
+   units (n0 first, then [rest]) packed by lal's packer rules (single packets / FU
+   fragments, any payload limit), the packets of the first unit in order (they
+   prime the container as created), all others in ANY admissible arrival order
+   (duplicates, stale repeats, swaps inside the window of 1024 / 2^14, sequence
+   numbers wrapping): the RTMP messages read back as exactly these units, in
+   order, each once, access unit delimiters and parameter sets removed *)
+Theorem c07_rtsp_video : forall flt rot (hevc : bool) maxp vclock vpt ssrc s0 ts0 n0 pls0 (rest : list (N * bytes)) sched groups,
+  let c := codec_of hevc in
+  let pr := RtpFrames.proto_of_codec c in
+  let rate := Z.to_N vclock in
+  RtpPacker.fu_hdr_size c < maxp -> (1000 <= vclock < 4294967296000)%Z -> 0 < vpt < 128 -> ssrc < 4294967296 ->
+  RtpRoundtripProofs.nal_ok c n0 -> Forall (fun tn => RtpRoundtripProofs.nal_ok c (snd tn)) rest ->
+  lenN n0 < 4294967296 -> Forall (fun tn => lenN (snd tn) < 4294967296) rest ->
+  s0 < 65536 -> RtpPacker.pack_nal true c n0 maxp = Ok pls0 -> (length pls0 <= 1024)%nat ->
+  let d := RtpSeqArith.seq_add s0 (lenN pls0 - 1) in
+  let s := RtpRoundtripProofs.unit_stream pr (RtpSeqArith.seq_succ d) (map (RtpRoundtripProofs.video_unit c maxp rate) rest) in
+  RtpReorderAbs.sched_ok 1024 (RtpStreamProofs.init_astate s) sched ->
+  (forall i, (i < length (RtpStreamProofs.pkts s))%nat -> In i sched) ->
+  let arrivals := map RtpStreamProofs.upkt_arrival (RtpFrames.mk_upkts pr s0 ts0 pls0)
+                  ++ map (fun i => RtpStreamProofs.upkt_arrival (RtpStreamProofs.pkt_at s i)) sched in
+  Forall arr_ok arrivals ->
+  rtsp_ingest true flt rot NetInSess.c_none 0 0 None (vcodec_tok hevc) vclock (Z.of_N vpt) None None None
+              (map (fun a => (2, raw_of vpt ssrc a)) arrivals) = Ok groups ->
+  read_video_nals (av_msgs (concat groups)) = filter (keep_nal hevc) (n0 :: map snd rest).
+Proof. exact rtsp_video_end_to_end. Qed.
+Print Assumptions c07_rtsp_video.
+
+(* an audio-only publisher (AAC with config, G.711 A/u, Opus): OnSdp's messages first, then
+   the remuxer's output on what the C12 container returns (c12_reorder_audio, c12_audio_* apply to it) *)
+Theorem c07_rtsp_audio_ingest : forall fx flt rot ac aclock apt ssrc asc arrivals groups,
+  (ac = NetInSess.c_aac /\ asc <> None) \/ (ac = NetInSess.c_pcma \/ ac = NetInSess.c_pcmu \/ ac = NetInSess.c_opus) ->
+  (1000 <= aclock < 4294967296000)%Z -> apt < 128 -> ssrc < 4294967296 -> Forall arr_ok arrivals ->
+  rtsp_ingest fx flt rot ac aclock (Z.of_N apt) asc NetInSess.c_none 0 0 None None None
+              (map (fun a => (0, raw_of apt ssrc a)) arrivals) = Ok groups ->
+  exists r0 ms0 more st12 outs r',
+    init_with_av_config rs_new asc None None None = Ok (r0, ms0) /\ groups = ms0 :: more /\
+    RtpReorder.feed_all (pr_of (akind ac)) (Z.to_N aclock) 1024 RtpReorder.c_init arrivals = Ok (st12, outs) /\
+    feed_all_av fx r0 (map (to_av (apt_of ac)) outs) = Ok (r', concat more).
+Proof. exact rtsp_audio_ingest. Qed.
+Print Assumptions c07_rtsp_audio_ingest.
+
+(* TWO TRACKS through the interleave queue: any interleaving of the audio track's
+   and the video track's packets (each track in any order its container admits).
+   The in-session run decomposes into the two C12 containers on their own
+   sub-sequences, ONE list of AvPackets in the order they reached
+   AvPacketQueue.Feed (its audio part = the audio container's output, its video
+   part = the video container's), the queue run on that list (c07_queue_merge /
+   c07_queue_rebase apply to it) and the remuxer on what the queue let through *)
+Theorem c07_rtsp_two_tracks_run : forall fx rot cfg ua uv apt vpt assrc vssrc,
+  clock_pos (NetUnpack.uk_clock ua) -> clock_pos (NetUnpack.uk_clock uv) ->
+  NetInSess.sc_aunp cfg = Some ua -> NetInSess.sc_vunp cfg = Some uv ->
+  NetInSess.sc_apt cfg = Z.of_N apt -> NetInSess.sc_vpt cfg = Z.of_N vpt -> apt <> vpt ->
+  NetInSess.sc_artp cfg = 0 -> NetInSess.sc_vrtp cfg = 2 -> apt < 128 -> vpt < 128 ->
+  assrc < 4294967296 -> vssrc < 4294967296 ->
+  is_video_pt (NetUnpack.uk_pt uv) = true -> is_video_pt (NetUnpack.uk_pt ua) = false ->
+  forall pkts s ca cv q r groups,
+  crel (NetInSess.ss_acont s) ca -> crel (NetInSess.ss_vcont s) cv -> Forall (fun x => arr_ok (snd x)) pkts ->
+  rtsp_run fx rot cfg s (Some q) r (map (enc apt vpt assrc vssrc) pkts) = Ok groups ->
+  exists avs sa oa sv ov q' outs r',
+    RtpReorder.feed_all (pr_of (NetUnpack.uk_kind ua)) (Z.to_N (NetUnpack.uk_clock ua)) NetInSess.unpacker_max_size ca (sel false pkts) = Ok (sa, oa) /\
+    RtpReorder.feed_all (pr_of (NetUnpack.uk_kind uv)) (Z.to_N (NetUnpack.uk_clock uv)) NetInSess.unpacker_max_size cv (sel true pkts) = Ok (sv, ov) /\
+    as_ avs = map (to_av (NetUnpack.uk_pt ua)) oa /\ vs avs = map (to_av (NetUnpack.uk_pt uv)) ov /\
+    aq_run rot q avs = (q', outs) /\
+    feed_all_av fx r (concat outs) = Ok (r', concat groups).
+Proof. exact two_track_run. Qed.
+Print Assumptions c07_rtsp_two_tracks_run.
+
+(* ... hence, when the video container returns the publisher's units (c12_reorder_video /
+   c07_rtsp_video_container give exactly this form), a consumer reads a PREFIX of them - same
+   units, same order, each once, AUD / parameter sets removed - and fewer than 128 units are
+   still held back by the queue when the input stops *)
+Theorem c07_rtsp_two_tracks : forall rot cfg ua uv apt vpt assrc vssrc (hevc : bool)
+        pkts s ca cv r groups sv (tsf : N * bytes -> N) (nals : list (N * bytes)),
+  clock_pos (NetUnpack.uk_clock ua) -> clock_pos (NetUnpack.uk_clock uv) ->
+  NetInSess.sc_aunp cfg = Some ua -> NetInSess.sc_vunp cfg = Some uv ->
+  NetInSess.sc_apt cfg = Z.of_N apt -> NetInSess.sc_vpt cfg = Z.of_N vpt ->
+  apt <> vpt -> NetInSess.sc_artp cfg = 0 -> NetInSess.sc_vrtp cfg = 2 -> apt < 128 -> vpt < 128 ->
+  assrc < 4294967296 -> vssrc < 4294967296 ->
+  NetUnpack.uk_pt uv = (if hevc then pt_hevc else pt_avc) -> is_video_pt (NetUnpack.uk_pt ua) = false ->
+  rs_vfmt r = vfmt_avcc -> crel (NetInSess.ss_acont s) ca -> crel (NetInSess.ss_vcont s) cv ->
+  Forall (fun x => arr_ok (snd x)) pkts ->
+  rtsp_run true rot cfg s (Some aq_init) r (map (enc apt vpt assrc vssrc) pkts) = Ok groups ->
+  RtpReorder.feed_all (pr_of (NetUnpack.uk_kind uv)) (Z.to_N (NetUnpack.uk_clock uv)) NetInSess.unpacker_max_size cv (sel true pkts)
+    = Ok (sv, map (fun tn => (tsf tn, RtpUnpacker.avcc (snd tn))) nals) ->
+  Forall (fun tn => avcc_ok (snd tn)) nals ->
+  exists k, (k <= length nals)%nat /\ (length nals - k < 128)%nat /\
+            read_video_nals (av_msgs (concat groups)) = filter (keep_nal hevc) (map snd (firstn k nals)).
+Proof. exact two_tracks_video_nals. Qed.
+Print Assumptions c07_rtsp_two_tracks.
 
 (* HEVC filler data / end of sequence / reserved types: the pinned tree gave such a
    packet no position (it then blocked the queue until 1024 packets had piled up) *)
@@ -269,11 +433,10 @@ Print Assumptions c07_ps_frame_nals.
    iterateNaluByStartCode exactly once, in order, stamped with its own PTS; the
    last frame stays buffered (lal flushes a frame only when the next one
    starts - also at the end of a stream).
-   PARTIAL (what is not covered by a theorem): pack / system headers and the
-   program stream map between the PES packets, audio PES packets interleaved
-   with video ones, RTP boundaries that fall inside a PES packet, streams
-   without any PTS (rtp-timestamp mode) - all modelled in Net/NetPs.v and
-   compared on the python muxer's packings (c07.ps, c07.e2e_ps). *)
+   c07_ps_stream below generalises this to whole streams (headers, program stream
+   map, audio, arbitrary RTP cuts).  Not covered by a theorem: streams without any
+   PTS (rtp-timestamp mode) and the reorder list in front of FeedRtpBody - modelled
+   in Net/NetPs.v and compared on the python muxer's packings (c07.ps, c07.e2e_ps). *)
 Theorem c07_ps_frames : forall vpt l st rtpts acc fuel cur,
   Forall RemuxPsPesProofs.pes_ok l -> RemuxPsPesProofs.none_ok (fst cur) l ->
   NetPs.ps_vpt st = vpt -> NetPs.ps_pre_vpts st = fst cur -> NetPs.ps_vbuf st = snd cur ->
@@ -285,6 +448,57 @@ Theorem c07_ps_frames : forall vpt l st rtpts acc fuel cur,
               NetPs.ps_vbuf st' = snd (snd (RemuxPsPesProofs.regroup cur l)) /\ NetPs.ps_wait_sps st' = w.
 Proof. exact RemuxPsPesProofs.video_pes_run. Qed.
 Print Assumptions c07_ps_frames.
+
+(* THE WHOLE PROGRAM STREAM, cut anywhere.  A stream is a list of elements of a
+   reference muxer (RemuxPsStreamProofs.elem: pack header with 0..7 stuffing bytes,
+   system header and the other length-prefixed packets lal skips, program stream
+   map with any elementary stream entries, video / audio PES packets with or
+   without PTS, program end code).  Its bytes reach FeedRtpBody cut into RTP bodies
+   at ARBITRARY positions (inside start codes, length fields, headers, stuffing,
+   payloads), each body with its own rtp timestamp.  Provided the element-by-element
+   semantics [arun] succeeds (every frame's iterateNaluByStartCode returns, and a
+   PES packet without PTS only continues a frame that has one), the unpacker ends
+   with an empty buffer in the state [arun] computes and has called back with
+   exactly the events [arun] lists - the same for every way of cutting.  With
+   c07_ps_frame_nals for what each video frame yields and (3) for the remuxer this is
+   the GB28181 path from the wire to the RTMP messages; the last frame of each track
+   stays buffered (known finding C07-KF-PS-LAST-FRAME). *)
+Theorem c07_ps_stream : forall chunks els st k' evs,
+  Forall RemuxPsStreamProofs.elem_ok els -> RemuxPsStreamProofs.proper_prefix (NetPs.ps_buf st) els ->
+  NetPs.ps_buf st ++ concat (map fst chunks) = concat (map RemuxPsStreamProofs.ebytes els) ->
+  RemuxPsStreamProofs.arun (RemuxPsStreamProofs.core_of st) els = Ok (k', evs) ->
+  exists st', RemuxPsStreamProofs.feed_chunks st chunks = Ok (st', evs) /\ NetPs.ps_buf st' = [] /\
+              RemuxPsStreamProofs.core_of st' = k' /\ RemuxPsStreamProofs.same_queue st st'.
+Proof. exact RemuxPsStreamProofs.chunked_stream. Qed.
+Print Assumptions c07_ps_stream.
+
+(* KNOWN FINDING C07-KF-PS-LAST-FRAME (open): a frame is handed out only when a PES packet with another
+   PTS arrives.  A stream that ends (program end code included) after its last frame leaves that frame in
+   the unpacker: here one video frame was muxed, none was delivered, the frame sits in the buffer. *)
+Theorem c07_ps_last_frame_refuted :
+  let frame := [0; 0; 0; 1; 103; 66; 0; 30; 0; 0; 0; 1; 104; 206; 0; 0; 0; 1; 101; 136; 128] in
+  let els := [RemuxPsStreamProofs.EPsm 224 255 [] [(27, 224, [])] [69; 189; 220; 244];
+              RemuxPsStreamProofs.EPes true (Some 9000) frame; RemuxPsStreamProofs.EEnd] in
+  exists k', RemuxPsStreamProofs.arun (RemuxPsStreamProofs.core_of NetPs.ps_init) els = Ok (k', []) /\
+             RemuxPsStreamProofs.k_vbuf k' = frame.
+Proof. eexists. vm_compute. split; reflexivity. Qed.
+Print Assumptions c07_ps_last_frame_refuted.
+
+(* the two facts it rests on: a complete element at the head of the buffer is consumed in one
+   iteration with the effect [astep] describes, whatever follows it; a proper prefix of an element
+   makes FeedRtpBody wait without touching anything (this is what the pack-header fix 446939e restored) *)
+Theorem c07_ps_element_step : forall e st rest rtpts acc f k' evs,
+  RemuxPsStreamProofs.elem_ok e -> NetPs.ps_buf st = RemuxPsStreamProofs.ebytes e ++ rest ->
+  RemuxPsStreamProofs.astep (RemuxPsStreamProofs.core_of st) e = Ok (k', evs) ->
+  RemuxPsStreamProofs.stepped f st rtpts acc rest k' evs.
+Proof. exact RemuxPsStreamProofs.step_elem. Qed.
+Print Assumptions c07_ps_element_step.
+
+Theorem c07_ps_prefix_waits : forall e st P Q rtpts acc f,
+  RemuxPsStreamProofs.elem_ok e -> P ++ Q = RemuxPsStreamProofs.ebytes e -> Q <> [] -> NetPs.ps_buf st = P ->
+  NetPs.feed_body_loop true (S f) st rtpts acc = Ok (false, st, acc).
+Proof. exact RemuxPsStreamProofs.prefix_waits. Qed.
+Print Assumptions c07_ps_prefix_waits.
 
 (* ======================================================================== *)
 (* (6) customize pub API: the same remuxer, nothing in between; after Dispose
@@ -328,6 +542,38 @@ Example c07_nonvacuous :
     framed_as rs_new ex_frame [ex_aud; ex_sps; ex_pps; ex_idr] /\
     frame_msg false 40 [ex_aud; ex_sps; ex_pps; ex_idr] = [RAv false 40 (23 :: 1 :: 0 :: 0 :: 0 :: join_nalu_avcc [ex_idr])].
 Proof. vm_compute. split; [reflexivity|]. split; [reflexivity|]. split; reflexivity. Qed.
+
+(* a program stream: pack header with 2 stuffing bytes, system header, program stream map (H.264 on e0,
+   AAC on c0), a video frame (PTS 9000) in two PES packets - SPS, PPS, IDR slice -, an audio frame, the next
+   video frame (PTS 12600), the next audio frame, end code; cut into bodies of 1, 16, 3, 40 and the remaining
+   bytes: the first video frame comes out as three NAL units stamped 100 ms, the first audio frame 100 ms *)
+Definition ex_ps_els : list RemuxPsStreamProofs.elem :=
+  [RemuxPsStreamProofs.EPack [68; 0; 4; 0; 4; 1; 1; 137; 195] 31 [255; 255];
+   RemuxPsStreamProofs.EOther 187 [128; 4; 225; 127];
+   RemuxPsStreamProofs.EPsm 224 255 [] [(27, 224, []); (15, 192, [1; 2])] [69; 189; 220; 244];
+   RemuxPsStreamProofs.EPes true (Some 9000) ([0; 0; 0; 1; 103; 66; 0; 30] ++ [0; 0; 0; 1; 104; 206]);
+   RemuxPsStreamProofs.EPes true None [0; 0; 0; 1; 101; 136; 128];
+   RemuxPsStreamProofs.EPes false (Some 9000) [255; 241; 80; 128; 1; 63; 252; 33; 16];
+   RemuxPsStreamProofs.EPes true (Some 12600) [0; 0; 0; 1; 65; 154; 2];
+   RemuxPsStreamProofs.EPes false (Some 11089) [255; 241; 80; 128; 1; 63; 252; 33; 17];
+   RemuxPsStreamProofs.EEnd].
+Definition ex_ps_bytes : bytes := concat (map RemuxPsStreamProofs.ebytes ex_ps_els).
+Definition ex_ps_chunks : list (bytes * N) :=
+  [(firstn 1 ex_ps_bytes, 9000); (firstn 16 (skipn 1 ex_ps_bytes), 9000); (firstn 3 (skipn 17 ex_ps_bytes), 9000);
+   (firstn 40 (skipn 20 ex_ps_bytes), 9000); (skipn 60 ex_ps_bytes, 12600)].
+Example c07_ps_stream_nonvacuous :
+  forallb (fun e => match e with
+                    | RemuxPsStreamProofs.EPack f _ s => (lenN f =? 9) && (lenN s <? 8)
+                    | RemuxPsStreamProofs.EOther c b => RemuxPsStreamProofs.other_code c && (lenN b <? 65536)
+                    | _ => true end) ex_ps_els = true /\
+  concat (map fst ex_ps_chunks) = ex_ps_bytes /\
+  (exists k', RemuxPsStreamProofs.arun (RemuxPsStreamProofs.core_of NetPs.ps_init) ex_ps_els
+     = Ok (k', [NetPs.mk_psev 96 100 100 [0; 0; 0; 1; 103; 66; 0; 30]; NetPs.mk_psev 96 100 100 [0; 0; 0; 1; 104; 206];
+                NetPs.mk_psev 96 100 100 [0; 0; 0; 1; 101; 136; 128]; NetPs.mk_psev 97 100 100 [255; 241; 80; 128; 1; 63; 252; 33; 16]])) /\
+  (exists st', RemuxPsStreamProofs.feed_chunks NetPs.ps_init ex_ps_chunks
+     = Ok (st', [NetPs.mk_psev 96 100 100 [0; 0; 0; 1; 103; 66; 0; 30]; NetPs.mk_psev 96 100 100 [0; 0; 0; 1; 104; 206];
+                 NetPs.mk_psev 96 100 100 [0; 0; 0; 1; 101; 136; 128]; NetPs.mk_psev 97 100 100 [255; 241; 80; 128; 1; 63; 252; 33; 16]])).
+Proof. split; [vm_compute; reflexivity|]. split; [vm_compute; reflexivity|]. split; eexists; vm_compute; reflexivity. Qed.
 
 (* the interleave queue on A(1000) V(500) A(1020) V(540): audio 0, video 0, audio 20 out, video 40 still queued *)
 Example c07_queue_nonvacuous :
